@@ -311,9 +311,38 @@ func runC08(p *an.Prog, r *an.Run, tier string) {
 		ch, ok := v.Type().Underlying().(*types.Chan)
 		return ok && isNamedType(ch.Elem(), "Node")
 	}
+	// the other shape of the fan-out: one channel of {node, err} results instead of an accept and an error channel
+	resultChanFields := func(v ssa.Value) (nodeIdx, errIdx int, ok bool) {
+		ch, isCh := v.Type().Underlying().(*types.Chan)
+		if !isCh {
+			return 0, 0, false
+		}
+		st, isSt := ch.Elem().Underlying().(*types.Struct)
+		if !isSt {
+			return 0, 0, false
+		}
+		nodeIdx, errIdx = -1, -1
+		for i := 0; i < st.NumFields(); i++ {
+			if isNamedType(st.Field(i).Type(), "Node") {
+				if nodeIdx >= 0 {
+					return 0, 0, false
+				}
+				nodeIdx = i
+			}
+			if an.IsErrorType(st.Field(i).Type()) {
+				if errIdx >= 0 {
+					return 0, 0, false
+				}
+				errIdx = i
+			}
+		}
+		return nodeIdx, errIdx, nodeIdx >= 0 && errIdx >= 0
+	}
+	structMode := false
 	// fan: the function holding the fan-out and its collector — requestHosts itself, or a helper it calls
 	fan := rh
 	var fanCall ssa.CallInstruction
+	haveAccept := false
 	for _, fn := range regionFuncs(p, rh) {
 		an.AllInstrs(fn, func(in ssa.Instruction) {
 			if c, ok := in.(ssa.CallInstruction); ok && isServiceCall(an.CallObj(c)) {
@@ -324,8 +353,21 @@ func runC08(p *an.Prog, r *an.Run, tier string) {
 			}
 			if mc, ok := in.(*ssa.MakeChan); ok && isAcceptChan(mc) && fn.Parent() == nil {
 				fan = fn
+				haveAccept = true
 			}
 		})
+	}
+	if !haveAccept {
+		for _, fn := range regionFuncs(p, rh) {
+			an.AllInstrs(fn, func(in ssa.Instruction) {
+				if mc, ok := in.(*ssa.MakeChan); ok && fn.Parent() == nil {
+					if _, _, isRes := resultChanFields(mc); isRes {
+						fan = fn
+						structMode = true
+					}
+				}
+			})
+		}
 	}
 	if fan != rh {
 		for _, c := range an.Calls(rh, false) {
@@ -359,7 +401,55 @@ func runC08(p *an.Prog, r *an.Run, tier string) {
 		reach := an.ReachAvoiding(c.Parent(), an.EdgeSet(u.Succ))
 		nAccept := 0
 		for _, s := range sends {
-			if !isAcceptChan(s.Chan) {
+			if !structMode {
+				break
+			}
+			nodeIdx, errIdx, isRes := resultChanFields(s.Chan)
+			if !isRes {
+				continue
+			}
+			nAccept++
+			// the result sent pairs this host's node with the outcome of this host's whitelist call
+			var nodeVal, errVal ssa.Value
+			if ld, ok := s.X.(*ssa.UnOp); ok && ld.Op == token.MUL {
+				if al, ok := ld.X.(*ssa.Alloc); ok {
+					for _, ref := range *al.Referrers() {
+						fa, ok := ref.(*ssa.FieldAddr)
+						if !ok {
+							continue
+						}
+						for _, r2 := range *fa.Referrers() {
+							if st, ok := r2.(*ssa.Store); ok && st.Addr == ssa.Value(fa) {
+								if fa.Field == nodeIdx {
+									nodeVal = st.Val
+								}
+								if fa.Field == errIdx {
+									errVal = st.Val
+								}
+							}
+						}
+					}
+				}
+			}
+			if s.Parent() != c.Parent() || errVal == nil || errVal != c.Value() {
+				bad = append(bad, "the result sent at "+p.Pos(s.Pos())+" does not carry the outcome of this host's whitelist call")
+			}
+			common := false
+			if nodeVal != nil {
+				dn := p.DerivesIn(rh, 2, nodeVal)
+				ds := p.DerivesIn(rh, 2, c.Common().Value)
+				for _, n := range dn.Nodes {
+					if isHostServiceVal(n) && ds.HasValue(n) {
+						common = true
+					}
+				}
+			}
+			if !common {
+				bad = append(bad, "the node reported with a result is not the one whose connection was asked")
+			}
+		}
+		for _, s := range sends {
+			if structMode || !isAcceptChan(s.Chan) {
 				continue
 			}
 			nAccept++
@@ -408,12 +498,136 @@ func runC08(p *an.Prog, r *an.Run, tier string) {
 			sel = s
 		}
 	})
-	if sel == nil {
-		bad = append(bad, "no collector select found")
+	// struct mode: the collector is a receive from the result channel; a node is taken from a result only on the branch
+	// on which that result's error is nil
+	var recvs []*ssa.UnOp
+	ackNodes := map[ssa.Value]bool{} // node values read from a received result under "its err == nil"
+	if structMode {
+		an.AllInstrs(fan, func(in ssa.Instruction) {
+			if u, ok := in.(*ssa.UnOp); ok && u.Op == token.ARROW {
+				if _, _, isRes := resultChanFields(u.X); isRes {
+					recvs = append(recvs, u)
+				}
+			}
+		})
+		fieldOfRecv := func(v ssa.Value, rc *ssa.UnOp, idx int) bool {
+			switch x := v.(type) {
+			case *ssa.Field:
+				return x.Field == idx && isRecvValue(x.X, rc)
+			case *ssa.UnOp:
+				if fa, ok := x.X.(*ssa.FieldAddr); ok && x.Op == token.MUL && fa.Field == idx {
+					if al, ok := fa.X.(*ssa.Alloc); ok {
+						for _, ref := range *al.Referrers() {
+							if st, ok := ref.(*ssa.Store); ok && st.Addr == ssa.Value(al) && st.Val == ssa.Value(rc) {
+								return true
+							}
+						}
+					}
+				}
+			}
+			return false
+		}
+		for _, rc := range recvs {
+			nodeIdx, errIdx, _ := resultChanFields(rc.X)
+			an.AllInstrs(fan, func(in ssa.Instruction) {
+				v, ok := in.(ssa.Value)
+				if !ok || !fieldOfRecv(v, rc, nodeIdx) {
+					return
+				}
+				// controlled by err-of-this-result == nil
+				for _, ci := range an.ControllingIfs(in.Block()) {
+					rel, ok := an.BranchRel(ci.If, ci.Succ)
+					if !ok || rel.Op != token.EQL {
+						continue
+					}
+					l, rr := rel.Arg(rel.L), rel.Arg(rel.R)
+					isNil := func(x ssa.Value) bool { c, ok := x.(*ssa.Const); return ok && c.IsNil() }
+					other := l
+					if isNil(l) {
+						other = rr
+					} else if !isNil(rr) {
+						continue
+					}
+					okErr := false
+					for _, nd := range p.Derives(1, other).Nodes {
+						if fieldOfRecv(nd, rc, errIdx) {
+							okErr = true
+						}
+						// the same read inside a predicate method of the result type, its receiver bound to this result
+						var base ssa.Value
+						switch x := nd.(type) {
+						case *ssa.Field:
+							if x.Field == errIdx {
+								base = x.X
+							}
+						case *ssa.UnOp:
+							if fa, ok := x.X.(*ssa.FieldAddr); ok && x.Op == token.MUL && fa.Field == errIdx {
+								if al, ok := fa.X.(*ssa.Alloc); ok {
+									for _, ref := range *al.Referrers() {
+										if st, ok := ref.(*ssa.Store); ok && st.Addr == ssa.Value(al) {
+											base = st.Val
+										}
+									}
+								}
+							}
+						}
+						if prm, isP := base.(*ssa.Parameter); isP && isRecvValue(rel.Arg(prm), rc) {
+							okErr = true
+						}
+					}
+					if okErr {
+						ackNodes[v] = true
+					}
+				}
+			})
+		}
+		if len(recvs) == 0 {
+			bad = append(bad, "no collector receive found")
+		}
+		// every node appended to the reply was read from a result under its err == nil
+		for _, c := range an.Calls(fan, false) {
+			b, ok := c.Common().Value.(*ssa.Builtin)
+			if !ok || an.Ident(b.Name()) != "append" || len(c.Common().Args) != 2 {
+				continue
+			}
+			if sl, ok := c.Common().Args[0].Type().Underlying().(*types.Slice); !ok || !isNamedType(sl.Elem(), "Node") {
+				continue
+			}
+			els, ok := variadicElems(c.Common().Args[1])
+			if !ok {
+				bad = append(bad, "cannot see what is appended to the reply at "+p.Pos(c.Pos()))
+				continue
+			}
+			for _, e := range els {
+				if !ackNodes[e] {
+					bad = append(bad, "a host is added to the reply at "+p.Pos(c.Pos())+" without its result's error having been found nil (a failing or timed-out host would be handed to the client)")
+				}
+			}
+		}
+	}
+	collectorBlock := func() *ssa.BasicBlock {
+		if sel != nil {
+			return sel.Block()
+		}
+		if len(recvs) > 0 {
+			return recvs[0].Block()
+		}
+		return nil
+	}()
+	fromCollector := func(n ssa.Value) bool {
+		if ex, ok := n.(*ssa.Extract); ok && sel != nil && ex.Tuple == ssa.Value(sel) {
+			return true
+		}
+		return ackNodes[n]
+	}
+	if collectorBlock == nil {
+		if !structMode {
+			bad = append(bad, "no collector select found")
+		}
 	} else {
 		// collector bound: controlled by i > 0 with i starting at len(candidates)
 		okBound := false
-		for _, cr := range ctrlRels(sel.Block()) {
+		for _, cr := range ctrlRels(collectorBlock) {
 			if cr.Kind != "int" {
 				continue
 			}
@@ -439,7 +653,7 @@ func runC08(p *an.Prog, r *an.Run, tier string) {
 				d := p.Derives(0, an.RetResults(ret)[0])
 				okSrc := false
 				for _, n := range d.Nodes {
-					if ex, ok := n.(*ssa.Extract); ok && ex.Tuple == ssa.Value(sel) {
+					if fromCollector(n) {
 						okSrc = true
 					}
 				}
@@ -464,6 +678,11 @@ func runC08(p *an.Prog, r *an.Run, tier string) {
 					if mc, ok := i2.(*ssa.MakeChan); ok && isAcceptChan(mc) {
 						mk = mc
 					}
+					if mc, ok := i2.(*ssa.MakeChan); ok && structMode {
+						if _, _, isRes := resultChanFields(mc); isRes {
+							mk = mc
+						}
+					}
 				})
 			}
 			if mk == nil || !an.Dominates(mk, ret) {
@@ -474,7 +693,7 @@ func runC08(p *an.Prog, r *an.Run, tier string) {
 				d := p.Derives(0, rr[0])
 				okSrc := false
 				for _, n := range d.Nodes {
-					if ex, ok := n.(*ssa.Extract); ok && ex.Tuple == ssa.Value(sel) {
+					if fromCollector(n) {
 						okSrc = true
 					}
 					if ex, ok := n.(*ssa.Extract); ok && fan != rh && ex.Tuple == fanCall.Value() && ex.Index == 0 {
@@ -551,6 +770,26 @@ func runC08(p *an.Prog, r *an.Run, tier string) {
 		r.Analysed(an.FuncName(m))
 		checkActiveHosts(p, r, d, m, exp)
 	}
+}
+
+// isRecvValue: v is the received value rc itself, or a load of the local variable it was stored into.
+func isRecvValue(v ssa.Value, rc *ssa.UnOp) bool {
+	if v == ssa.Value(rc) {
+		return true
+	}
+	if u, ok := v.(*ssa.UnOp); ok && u.Op == token.MUL {
+		if al, ok := u.X.(*ssa.Alloc); ok {
+			n, hit := 0, false
+			for _, ref := range *al.Referrers() {
+				if st, ok := ref.(*ssa.Store); ok && st.Addr == ssa.Value(al) {
+					n++
+					hit = hit || st.Val == ssa.Value(rc)
+				}
+			}
+			return n == 1 && hit
+		}
+	}
+	return false
 }
 
 func ifEmpty(cond bool, s string) []string {
